@@ -14,6 +14,7 @@ mod ops_c06;
 mod ops_c19;
 mod ops_c08;
 mod ops_c11;
+mod ops_c07;
 fn dispatch_more(op: &str, args: &[String]) -> Option<String> {
     if let Some(r) = ops_c09::run(op, args) {
         return Some(r);
@@ -31,5 +32,6 @@ fn dispatch_more(op: &str, args: &[String]) -> Option<String> {
     if let Some(r) = ops_c19::run(op, args) { return Some(r); }
     if let Some(r) = ops_c08::run(op, args) { return Some(r); }
     if let Some(r) = ops_c11::run(op, args) { return Some(r); }
+    if let Some(r) = ops_c07::run(op, args) { return Some(r); }
     None
 }
